@@ -72,8 +72,7 @@ def make(prog, presence, include_unchanged):
                     s = Side(ex, 's' + p[1], pr == 'B')
                     stored[p] = s
                     addrs = []
-                    if s.kind == 'File':
-                        ex.assume(s.size >= 1)
+                    if s.kind == 'File' and ex.branch(b_lt(0, s.size), 'stored file non-empty?'):
                         hsh = A.put_block(ex, st, Data([(ord(p[1]), 0, s.size)]))
                         addrs = [A.mk_addr(ex, hsh, 0, s.size)]
                     ents.append(A.mk_entry(ex, p, s.kind, s.sec, addrs=addrs, target='t%d' % s.target if s.kind == 'Symlink' else None,
@@ -81,8 +80,6 @@ def make(prog, presence, include_unchanged):
                 if pr in 'LB':
                     l = Side(ex, 'l' + p[1], pr == 'B', stored.get(p))
                     live[p] = l
-                    if l.kind == 'File':
-                        ex.assume(l.size >= 1)
                     files.append(B.SrcFile(p, l.kind, cls=100 + ord(p[1]), size=l.size, target='t%d' % l.target if l.kind == 'Symlink' else None,
                                            mtime=B.TimeV(l.sec, l.nanos), mode=l.mode, user=user_name(l.user), group='root'))
             A.put_head(ex, st, 0)
@@ -162,8 +159,8 @@ def make_cb(prog, presence):
                     stored[p] = s
                     addrs = []
                     if s.kind == 'File':
-                        ex.assume(s.size >= 1)
                         ex.assume(s.size <= 64)
+                    if s.kind == 'File' and ex.branch(b_lt(0, s.size), 'stored file non-empty?'):
                         hsh = A.put_block(ex, st, Data([(ord(p[1]), 0, s.size)]))
                         addrs = [A.mk_addr(ex, hsh, 0, s.size)]
                     ents.append(A.mk_entry(ex, p, s.kind, s.sec, addrs=addrs, target='t%d' % s.target if s.kind == 'Symlink' else None,
@@ -172,7 +169,6 @@ def make_cb(prog, presence):
                     l = Side(ex, 'l' + p[1], pr == 'B', stored.get(p))
                     live[p] = l
                     if l.kind == 'File':
-                        ex.assume(l.size >= 1)
                         ex.assume(l.size <= 64)
                     files.append(B.SrcFile(p, l.kind, cls=100 + ord(p[1]), size=l.size, target='t%d' % l.target if l.kind == 'Symlink' else None,
                                            mtime=B.TimeV(l.sec, l.nanos), mode=l.mode, user=user_name(l.user), group='root'))
